@@ -3,7 +3,7 @@ import GeoVerif.Ops.All
 /-! Line protocol: `<op> <case-id> key=value …` in, `<case-id> <result>` out.  Unknown ops are rejected, never defaulted. -/
 open GeoVerif GeoVerif.IO GeoVerif.Ops
 
-def allOps : List (String × (Args → String)) := schedulesOps ++ lcoeOps ++ cashflowOps ++ capexOps ++ plantOps ++ reservoirOps ++ pressureOps ++ hipOps ++ rameyOps ++ readParamOps ++ inputFileOps ++ procOps ++ pathsOps ++ unitsOps ++ mcOps ++ reportOps
+def allOps : List (String × (Args → String)) := schedulesOps ++ lcoeOps ++ cashflowOps ++ capexOps ++ plantOps ++ reservoirOps ++ pressureOps ++ hipOps ++ rameyOps ++ readParamOps ++ inputFileOps ++ procOps ++ pathsOps ++ unitsOps ++ mcOps ++ reportOps ++ clientOps
 
 def step (line : String) : String :=
   match (line.trimAscii.toString.splitOn " ").filter (· ≠ "") with
